@@ -184,7 +184,48 @@ def tie_theorem_names(targets, tier):
     return [f"C41_{o.name}_meets_spec" for o in obligations(targets, tier) if o.kind.startswith("R-lockstep")]
 
 
-ASSUMPTIONS = []
-LEVEL_TEXT = "in progress"
-LEVEL_NOTE = ""
-TECHNIQUE = ""
+ASSUMPTIONS = [
+    "one list element = one ss clock cycle; 'reset' = a cycle with in_usb_reset = 1 (the link layer drives it with "
+    "lfps_reset_detected | ~vbus_present; the power_on_reset port of LTSSMController is not connected to anything)",
+    "phases are read off the outputs: receiver detection = perform_rx_detection, polling = send_lfps_polling, TS1 phase = "
+    "send_ts1_burst, TS2 phase = send_ts2_burst, idle handshake = perform_idle_handshake; training entry = first cycle of "
+    "send_ts1_burst (Polling.Active / Recovery.Active) or of request_hot_reset (Hot Reset.Active)",
+    "'TS2 exchange completed' = ts_burst_complete while sending TS2 after ts2_detected was seen since the training entry; "
+    "'polling LFPS exchanged' = lfps_polling_detected (or ts1_detected when loosen_requirements) while sending polling LFPS",
+    "time-outs: T = ceil(t * f) recomputed exactly and compared with the code through the tie; a state entered in cycle t and "
+    "timed with T cycles is occupied during cycles t..t+T at most, i.e. it is left T+1 cycles = timeout + one clock period after "
+    "entry (8 ns at 125 MHz): stated as such in the theorems",
+    "LUNA_COMPLIANCE is unset (Compliance falls through to Rx.Detect.Reset, as in normal builds)",
+    "R ties at f = 25 Hz (T12,T2,T360 = 1,1,9; counter 4 bits; quick + thorough) and 100 Hz (2,1,36; thorough) over explicit input "
+    "alphabets (Model/Ltssm.v: lt_alpha_small 16 words quick; lt_alpha_core 36 words, lt_alpha_opt 21 words thorough): every event "
+    "alone, warm reset alone and coinciding with each event, lfps_cycles_sent around the Polling.LFPS thresholds, optional requests; "
+    "input words outside the alphabets: correspondence + specification oracle on simulator traces at 1 kHz, 125 MHz (quick) + "
+    "250 Hz, 62.5 MHz, strict mode (thorough)",
+]
+LEVEL_TEXT = ("Machine-checked proof about a code-shaped model, tied to the code. For every time-out configuration that fits the "
+              "counter, both loosen modes and EVERY input history, the model's input/output trace is accepted by the ghost-history "
+              "specification monitor (C41_ltssm_meets_spec): link_ready implies that since the last reset cycle a partner was "
+              "detected, polling LFPS (or TS1 when loosened) and TS1/TS2 were exchanged and a TS2 burst completed after TS2 was "
+              "seen, and that since the last training entry the TS2 exchange and then the idle handshake completed; link_ready is "
+              "never asserted in the cycle after a reset cycle (so it falls within one cycle and U0 is not entered while reset "
+              "lasts; C41_reset_honoured: a reset cycle always leads to Rx.Detect.Reset); TS1 / idle-handshake / polling / quiet "
+              "phases last at most T12+1 / T2+1 / T360+1 / T12+1 cycles and every timed FSM state is occupied for at most T+1 "
+              "consecutive cycles (C41_timeouts, state level, covers the TS2 phases); in U0 enable_scrambling is exactly 'neither "
+              "side requested otherwise'. Tie: the netlist regenerated from /repo is (i) checked directly against the specification "
+              "monitor by certified reachability and (ii) proved equal to the model in lock step, on all traces over the listed "
+              "input alphabets at scaled clocks, giving C41_<target>_meets_spec for the netlist; correspondence and the specification "
+              "oracle on simulator traces with full-width inputs at 1 kHz .. 125 MHz.")
+LEVEL_NOTE = ("The UNCHANGED tree VIOLATES the property; ./check C41 exits 1 on it and 0 with findings/C41-warm-reset-priority.diff. "
+              "handle_warm_resets() is the FIRST statement of each state, so any later transition of the same cycle overrides it, and "
+              "Rx.Detect.Active/Quiet and Polling.LFPS do not handle warm reset at all: (1) in Polling.Idle / Recovery.Idle / Hot "
+              "Reset.Exit, idle_handshake_complete together with in_usb_reset enters U0: link_ready is asserted while reset is held "
+              "(findings/C41-u0-entered-during-reset.json); (2) a reset cycle that coincides with another transition (or falls into "
+              "Polling.LFPS) is lost, the link reaches U0 without re-detection/re-training since that reset "
+              "(findings/C41-reset-lost-when-coinciding.json; lfps_reset_detected is a one-cycle strobe, so this is realistic). The "
+              "model gives reset priority in every state. With the patch, entering_u0 can pulse in a reset cycle without U0 being "
+              "entered (it has no consumer). R ties cover explicit input alphabets at 25/100 Hz, not all 2^31 input words; time-outs "
+              "are 'T+1 cycles', one clock period more than the nominal value. Trusted: Coq kernel + vm_compute, Amaranth elaboration, "
+              "nir2coq.py/Netlist.v (validated each run against pysim).")
+TECHNIQUE = ("Rocq proof: inductive invariant between the 22-state FSM model and a ghost-history specification monitor over "
+             "inputs/outputs (all histories, parametric in the time-outs); certified reachability of netlist x monitor and netlist x "
+             "model against the regenerated netlist; simulator correspondence + specification oracle")
